@@ -52,7 +52,7 @@ func c11Process(c *vk.Ctx, r *rand.Rand, round int) bool {
 	streamEcho := func(tc *TargetConn) {
 		buf := make([]byte, 4096)
 		for {
-			tc.SetReadDeadline(time.Now().Add(60 * time.Second))
+			tc.SetReadDeadline(time.Now().Add(15 * time.Minute)) // far beyond the longest round: an idle relay must not end because its TARGET got bored
 			n, err := tc.Read(buf)
 			if n > 0 {
 				tc.Write(buf[:n])
@@ -177,7 +177,7 @@ func c11Process(c *vk.Ctx, r *rand.Rand, round int) bool {
 		tc.CloseWrite()
 		buf := make([]byte, 4096)
 		for {
-			tc.SetReadDeadline(time.Now().Add(60 * time.Second))
+			tc.SetReadDeadline(time.Now().Add(15 * time.Minute)) // far beyond the longest round: an idle relay must not end because its TARGET got bored
 			n, err := tc.Read(buf)
 			halfMu.Lock()
 			halfRx.Write(buf[:n])
@@ -460,7 +460,7 @@ func c11Process(c *vk.Ctx, r *rand.Rand, round int) bool {
 	}
 	// the client sees the end of its connection before the server has finished accounting for it
 	// (the close report follows the FIN): give the counters a bounded time to catch up
-	for dl := time.Now().Add(60 * time.Second); int(delta("ERR_CONNECT")) < nEOF0 && time.Now().Before(dl); {
+	for dl := time.Now().Add(60 * time.Second); int(delta("ERR_CONNECT")+delta("ERR_REPLAY_CLIENT")) < nEOF0 && time.Now().Before(dl); {
 		time.Sleep(50 * time.Millisecond)
 		if m, err := srv.Metrics(); err == nil {
 			after = m
